@@ -80,8 +80,8 @@ reg("C08", "rules_base", "check_C08", "other",
 
 reg("C13", "rules_funcs", "check_C13", "other",
     "instances = sqrt / hypot / cbrt reference forms, exact-zero division analysis, powi special-case table and call structure, panic sites reachable from powi and the Pow impls",
-    "R31 (S*): sqrt's guard table (negative -> NaN, 0 -> 0) and Karp-Markstein correction, hypot = sqrt(x^2+y^2), cbrt = zero guard + k>=1 Newton steps, compared semantically at operator level. R32 (N): with a zero argument no division by a definitely-zero value is reached. R26 (S): powi dispatches 0/1/-1 then square-and-multiply with recip for negative n and never takes i32::abs. Accuracy bounds are not decided.",
-    COMMON_ASSUME + ["accuracy bounds (32/16/48 * 2^-106, (6|n|+16) * 2^-106) are not decided: no static floating-point error analyser is available"])
+    "R31 (S*): sqrt's guard table (negative -> NaN, 0 -> 0) and Karp-Markstein correction, hypot = sqrt(x^2+y^2), cbrt = zero guard + k>=1 Newton steps, compared semantically at operator level. R32 (N): with a zero argument no division by a definitely-zero value is reached. R26 (S): powi dispatches 0/1/-1 then square-and-multiply with recip for negative n and never takes i32::abs. R31e / R26e (N, exact rationals, hand derivations DESIGN B.3/B.4 over the forms R31/R26 established): sqrt <= 32u^2, hypot <= 48u^2, cbrt <= 16u^2, powi <= (6|n|+16)u^2 for 2 <= |n| <= 2^31.",
+    COMMON_ASSUME + ["R31e/R26e lemmas: libm::sqrt and the f64 operations correctly rounded, libm::cbrt within 2^-30, operator bounds of JMP 2017 for conforming code (C02-C04), long division within 16u^2 (statement of C05), no under/overflow on the stated ranges"])
 reg("C14", "rules_funcs", "check_C14", "other",
     "instances = 161 table entries in 4 families (R33), 3 series truncation bounds (R34), range switches and reference forms of exp / exp_half / exp_m1 / exp2 / powf (R35)",
     "R33 (S, data): every entry of the 1/i!, exp(n/128)-1, exp(n/2), exp(16n) tables is the correctly rounded double-double of its family value (family and offset inferred from the data, then enforced on every entry), and the index maps agree with the offsets. R34 (N): Taylor truncation remainders (exact rationals) stay below half the property's floors. R35 (N/S*): range-switch literals lie in the windows the property allows; exp, exp_half, exp_m1, exp2, powf equal their reference forms semantically. Accuracy floors are not decided.",
